@@ -2,6 +2,7 @@ import ClaripyProofs.Lemmas.VSA.Balancer
 import ClaripyProofs.Lemmas.VSA.BalancerUnsat
 import ClaripyProofs.Lemmas.VSA.BalancerUnsatSigned
 import ClaripyProofs.Lemmas.VSA.BalancerNoLit
+import ClaripyProofs.Lemmas.VSA.BalancerSignedArms
 /-!
 # C25 — constraint_to_si never cuts off a satisfying assignment
 
@@ -217,6 +218,34 @@ theorem C25_unsat_sound_eqne_partial (op : CmpOp) (a b : BV) (hoa : ExprOK anno 
     (h : doit anno (.cmp op a b) = .ok .unsat) : evalB env (.cmp op a b) ≠ some true :=
   doit_unsat_sound_eqne anno env hctx hnrm op a b hoa hob hwab hop hal2 h
 
+/-! ### the arms on signed orderings
+
+`_balance_add` / `_balance_sub` (rotation, covered by the pair theorem above), `_balance_zeroext`, `_balance_signext`,
+`_balance_concat`, `_balance_and`, the scaling branch of `_balance_extract` and `_balance_lshift` with a shift by 0 accept the
+signed operators.  `_balance_zeroext` / `_balance_concat` are not meaning-preserving for them (witness below); what they keep
+is the UNSIGNED reading of the truism, and that is enough for the lone bound recorded afterwards. -/
+
+/-- `_balance_zeroext` on a signed ordering (`k ≥ 1` extension bits): unchanged, or the UNSIGNED reading of the new truism
+holds — whether the old truism held in its signed or in its unsigned reading -/
+theorem C25_step_signed_zext (t : Tru) (k : Nat) (e : BV) (hl : t.lhs = .zext k e) (hk : 0 < k) (hok : TruOK anno env t)
+    (hop : sOrd t.op) (hconv : ∃ p, convBV anno t.lhs [] = .ok p) (hh : t.holds env ∨ t.holdsU env)
+    (hs : symBV (balZext t k e).lhs = true) :
+    balZext t k e = t ∨ (TruOK anno env (balZext t k e) ∧ (balZext t k e).op = t.op ∧ (balZext t k e).holdsU env) :=
+  balZext_s anno env hctx hnrm t k e hl hk hok hop hconv hh hs
+
+/-- `_balance_concat` (known-zero high part) on a signed ordering: the same -/
+theorem C25_step_signed_concat (t t' : Tru) (a b : BV) (hl : t.lhs = .concat a b) (hok : TruOK anno env t) (hop : sOrd t.op)
+    (hconv : ∃ p, convBV anno t.lhs [] = .ok p) (hh : t.holds env ∨ t.holdsU env)
+    (h : balConcat anno t a b = .ok t') (hs : symBV t'.lhs = true) :
+    t' = t ∨ (TruOK anno env t' ∧ t'.op = t.op ∧ t'.holdsU env) :=
+  balConcat_s anno env hctx hnrm t t' a b hl hok hop hconv hh h hs
+
+/-- **`_handle_comparison` on a signed ordering whose UNSIGNED reading holds**: the lone signed bound it records, reduced
+modulo `2^w` and read with the unsigned default of the other side, contains the value -/
+theorem C25_handle_sound_signed_unsigned_reading (t : Tru) (bs' : Bounds) (hok : TruOK anno env t) (hop : sOrd t.op)
+    (hh : t.holdsU env) (h : handleCmp anno t [] = .ok bs') : Sound env bs' :=
+  handleCmp_U_lone anno env hctx hnrm t bs' hok hop hh h
+
 /-! ### without the hypothesis on the side facing a literal
 
 `hsym` above says: when `b` is a literal, `a` has a symbolic leaf.  The other case (two sides without a symbolic leaf, both of
@@ -280,6 +309,41 @@ theorem C25_balancer_sound_signed_nolit (op : CmpOp) (a b : BV) (bs : Bounds) (i
     exact sound_nil env
 
 end
+
+/-- the step `_balance_zeroext` is NOT meaning-preserving on a signed operator: `ZeroExt(4, x) <s 9` (8 bits) is rewritten to
+`x <s 9` at 4 bits (9 is -7 there); `x = 0` satisfies the first and not the second, only the unsigned reading `x <u 9`
+survives.  Not a defect of the result: the bound recorded for `x` (`min(7, 7, -8) = -8`, read modulo 16 as 8) is sound, the
+real `constraint_to_si` answers `x ∈ [0, 8]` — `C25_handle_sound_signed_unsigned_reading` is the reason. -/
+theorem C25_zext_signed_not_meaning_preserving :
+    balStep (fun _ => SI.top 4) ⟨.slt, .zext 4 (.free 0 4), 9, 8⟩ = .ok ⟨.slt, .free 0 4, 9, 4⟩ ∧
+    concCmp .slt 8 0 9 = true ∧ concCmp .slt 4 0 9 = false ∧ concCmp (uOf .slt) 4 0 9 = true :=
+  zext_signed_not_meaning_preserving
+
+/-- the full per-step statement for signed orderings (NOT proved; proved: `+` / `-` as rotations, `ZeroExt`, `Concat`): every
+arm other than `+` / `-` keeps "the truism holds in its signed or in its unsigned reading".  Missing: `_balance_signext`
+(same argument as `ZeroExt` with the sign bits known equal), `_balance_and`, the scaling branch of `_balance_extract`
+(value-preserving / order-preserving: both readings survive), `__lshift__` by 0. -/
+def C25_step_holds_signed_full : Prop :=
+  ∀ (anno : Nat → SI) (env : Nat → Nat), (∀ i, (anno i).WF ∧ (anno i).mem (env i)) → (∀ i, Nrm (anno i)) →
+    ∀ (ta t' : Tru), TruOK anno env ta → (∃ p, convBV anno ta.lhs [] = .ok p) → sOrd ta.op → isModLhs ta.lhs = false →
+      (ta.holds env ∨ ta.holdsU env) → balStep anno ta = .ok t' → symBV t'.lhs = true →
+      TruOK anno env t' ∧ t'.op = ta.op ∧ (t'.holds env ∨ t'.holdsU env)
+
+/-- the full composite for signed orderings (NOT proved; `C25_balancer_sound_signed` is the part where neither path uses an
+arm other than `+` / `-` and both end at the same expression): sound whenever no path combines a constant moved across
+`+` / `-` with another arm.  Missing beyond the steps above: a lone bound of a truism that still holds only in its SIGNED
+reading (e.g. the assumption `ZeroExt(k, e) >=s int_min`, whose path stops at once while the truism goes on to `e`) is
+sound only when the recorded lower bound is not negative / the value is known to be negative — for `ZeroExt` that needs the
+abstract value of the extension to have a non-negative signed minimum, which C24 (an over-approximation result) does not
+give.  Observed on the real code: 211 of the 1749 signed inputs of a quick run are of this kind, none fails. -/
+def C25_balancer_sound_signed_full : Prop :=
+  ∀ (anno : Nat → SI) (env : Nat → Nat), (∀ i, (anno i).WF ∧ (anno i).mem (env i)) → (∀ i, Nrm (anno i)) →
+    ∀ (op : CmpOp) (a b : BV) (bs : Bounds) (info : PathInfo), ExprOK anno env a → ExprOK anno env b → wd a = wd b →
+      sOrd op → doit anno (.cmp op a b) = .ok (.sat bs info) →
+      (∀ m, info.main = some m → ¬ (m.usedMod = true ∧ m.usedPt = true)) →
+      (∀ m, info.assum = some m → ¬ (m.usedMod = true ∧ m.usedPt = true)) →
+      (∀ m m', info.main = some m → info.assum = some m' → m.usedMod = m'.usedMod) →
+      evalB env (.cmp op a b) = some true → Sound env bs
 
 /-- the full statement for `==` / `!=` (not proved: the abstract equality is only proved sound on aligned operands, C24) -/
 def C25_unsat_sound_eqne_full : Prop :=
